@@ -1302,6 +1302,56 @@ theorem edivStep_inv {F : GF.GF} {rLast : Poly} {dlt : Nat} {D : ρ} {t t' : Pol
                 exact ⟨addOrSubtract_ne ht.1 (multiplyByMonomial_ne h3) h6, addOrSubtract_ne ht.2 (buildMonomial_ne h4) h5⟩
   · cases h
 
+/-- the inner loop keeps quotient and remainder non-empty -/
+theorem euclidDivLoop_ne (F : GF.GF) (rLast : Poly) (dlt : Nat) : ∀ (m : Nat) (q r : Poly) (t : Poly × Poly), q ≠ [] → r ≠ [] →
+    euclidDivLoop F rLast dlt m q r = .ok t → t.1 ≠ [] ∧ t.2 ≠ [] := by
+  intro m
+  induction m with
+  | zero => intro q r t _ _ h; cases h
+  | succ m ih =>
+    intro q r t hq hr h
+    have hw := edivStep_run (ρ := Unit) F rLast dlt () (m + 1) q r
+    rw [h] at hw
+    rw [whileLoop_succ] at hw
+    cases hs : edivStep (ρ := Unit) F rLast dlt () (r, q) with
+    | next t' =>
+      rw [hs] at hw
+      simp only [] at hw
+      have hne := edivStep_inv (t := (r, q)) ⟨hr, hq⟩ hs
+      have hw2 := edivStep_run (ρ := Unit) F rLast dlt () m t'.2 t'.1
+      rw [show ((t'.1, t'.2) : Poly × Poly) = t' from rfl, hw] at hw2
+      cases hm : euclidDivLoop F rLast dlt m t'.2 t'.1 with
+      | ok t2 =>
+        rw [hm] at hw2
+        simp only [Ctl.brk.injEq] at hw2
+        have := ih t'.2 t'.1 t2 hne.2 hne.1 hm
+        have e1 : t.1 = t2.1 := by have := congrArg Prod.snd hw2; simpa using this
+        have e2 : t.2 = t2.2 := by have := congrArg Prod.fst hw2; simpa using this
+        rw [e1, e2]; exact this
+      | error e => rw [hm] at hw2; cases e <;> cases hw2
+    | brk t' =>
+      rw [hs] at hw
+      simp only [Ctl.brk.injEq] at hw
+      unfold edivStep at hs
+      split at hs
+      · generalize (do
+          let lead ← getCoefficient (r, q).1 (degree (r, q).1)
+          let scale ← F.mul lead dlt
+          let monomial ← buildMonomial (degree (r, q).1 - degree rLast) scale
+          let q' ← addOrSubtract (r, q).2 monomial
+          let polynomial ← multiplyByMonomial F rLast (degree (r, q).1 - degree rLast) scale
+          let r' ← addOrSubtract (r, q).1 polynomial
+          pure (r', q') : Res (Poly × Poly)) = blk at hs
+        cases blk with
+        | ok v => cases hs
+        | error e => cases e <;> cases hs
+      · cases hs
+        have e1 : t.1 = q := by have := congrArg Prod.snd hw; simpa using this.symm
+        have e2 : t.2 = r := by have := congrArg Prod.fst hw; simpa using this.symm
+        rw [e1, e2]; exact ⟨hq, hr⟩
+    | ret x => rw [hs] at hw; cases hw
+    | panic f => rw [hs] at hw; cases hw
+
 /-- one round of the outer loop of `runEuclideanAlgorithm`, the inner division running on fuel `f`:
     (rLast, r, tLast, t) ↦ (r, rLast mod r, t, q·t + tLast) -/
 def euclidBlk (F : GF.GF) (f : Nat) (rLast r tLast t : Poly) : DRes (Poly × Poly × Poly × Poly) := do
@@ -1453,6 +1503,39 @@ theorem euclid_run (F : GF.GF) (R : Nat) (D : ρ) (f : Nat) : ∀ (m : Nat) (rLa
         exact this
     · simp only [hc, if_false]
       exact ⟨rLast, tLast, rfl⟩
+
+/-- an invariant that every continuing and every leaving step preserves holds of the state a `for cond` loop leaves with -/
+theorem while_inv_brk (Inv : τ → Prop) (f : τ → Ctl τ ρ) (hnext : ∀ t t', Inv t → f t = .next t' → Inv t')
+    (hbrk : ∀ t t', Inv t → f t = .brk t' → Inv t') : ∀ (n : Nat) (t t' : τ), Inv t → whileLoop f n t = .brk t' → Inv t' := by
+  intro n
+  induction n with
+  | zero => intro t t' _ h; cases h
+  | succ n ih =>
+    intro t t' ht h
+    rw [whileLoop_succ] at h
+    cases hf : f t with
+    | next t2 => rw [hf] at h; exact ih t2 t' (hnext t t2 ht hf) h
+    | brk t2 => rw [hf] at h; simp only [Ctl.brk.injEq] at h; subst h; exact hbrk t t2 ht hf
+    | ret r => rw [hf] at h; cases h
+    | panic e => rw [hf] at h; cases h
+
+theorem multiplyBy_error {F : GF.GF} {p : Poly} {s : Nat} {e : Fault} (hp : p ≠ []) (h : multiplyBy F p s = .error e) : IsPanic e := by
+  unfold multiplyBy at h
+  split at h
+  · cases h
+  · split at h
+    · cases h
+    · simp only [bind, Except.bind] at h
+      cases hm : p.mapM (fun x => F.mul x s) with
+      | error e1 => simp only [hm] at h; cases h; exact mapM_error (fun x e h => mul_error h) _ _ hm
+      | ok ms =>
+        simp only [hm] at h
+        have hl := mapM_length _ _ hm
+        have : 0 < p.length := List.length_pos_iff.mpr hp
+        unfold mkPoly at h
+        cases ms with
+        | nil => simp at hl; omega
+        | cons x xs => cases h
 
 theorem while_map' (R : τ → σ) (f : τ → Ctl τ ρ) (t : τ) {body : σ → Ctl σ ρ} {s : σ} {n : Nat}
     (hs : s = R t) (hb : ∀ t, body (R t) = mapS R (f t)) :
